@@ -452,6 +452,21 @@ def rule_tables(R):
               any(y[0] == "bin" and y[1] == "BitAnd" and any(z[0] == "const" and z[2] == 3 for z in walk(y)) for y in walk(x))
               for bb in vs.reachable if bb in vs.calls for x in [vs.call_term(bb)])
     qs = vs.q_edges(lambda x: any(is_call(y, "try_from") and "QoS" in " ".join(vs.calls[y[1]].gargs) for y in walk(x) if y[0] == "call"))
+    if okq and not qs:
+        # match form (also what `.map_err(..)?` reads as): the Err edge of the conversion's result only leads to error returns
+        for bb in vs.reachable:
+            c = vs.calls.get(bb)
+            if c is None or not (c.is_("TryFrom::try_from", "try_from") and "QoS" in " ".join(c.gargs)):
+                continue
+            res, _q = roles.awaited_result_switches(vs, c)
+            for si in res:
+                et = si["edges"].get("Err")
+                if et is None:
+                    continue
+                lv = [lf for lf in paths.explore(vs, et, lambda t: False, lambda b, x: False) if lf["kind"] == "return"]
+                vals = [paths.value_on_path(vs, [si["bb"]] + lf["path"], 0) for lf in lv]
+                if lv and all(v is not None and ((v[0] == "agg" and v[3] == "Err") or is_call(v, "from_residual")) for v in vals):
+                    qs = [si]
     R.ob("tables/qos3", okq and bool(qs), "the PUBLISH QoS is decoded with QoS::try_from((header >> 1) & 3) and QoS 3 is an error", where=vs.span)
     # dispatch
     for v in variants:
